@@ -52,7 +52,14 @@ def named(n, l):
     return l if isinstance(l, int) and l < n else None
 
 
-def ty_ops(n, t):
+def is_self_spelled(t, selfty):
+    """selfty = (owner, k) when the method spells its impl type as `Self`: which parameter / return types that affects"""
+    return bool(selfty) and t[0] == "opaque" and t[3] == selfty[0] and list(t[4]) == list(range(selfty[1]))
+
+
+def ty_ops(n, t, selfty=None):
+    if is_self_spelled(t, selfty):
+        return []                     # extend_implicit_lifetime_bounds only looks at TypeName::Named
     if t[0] == "opaque" and t[2] is not None:
         b = named(n, t[2])
         if b is not None:
@@ -60,8 +67,8 @@ def ty_ops(n, t):
     return []
 
 
-def ops_of(n, decl, tys):
-    return [("decl", l, ss) for l, ss in decl] + [o for t in tys for o in ty_ops(n, t)]
+def ops_of(n, decl, tys, selfty=None, first_is_self=False):
+    return [("decl", l, ss) for l, ss in decl] + [o for i, t in enumerate(tys) for o in ty_ops(n, t, None if (first_is_self and i == 0) else selfty)]
 
 
 def ty_lts(t):
@@ -115,7 +122,8 @@ class Defs:
 
 
 def m_env(m):
-    return build(m["n"], ops_of(m["n"], m["decl"], m["params"] + m["ret"]))
+    # the receiver is always recorded by name (SelfParam::to_typename), whatever the other types are spelled like
+    return build(m["n"], ops_of(m["n"], m["decl"], m["params"] + m["ret"], self_spelling(m), bool(m.get("self"))))
 
 
 def ret_lts(m):
@@ -331,6 +339,8 @@ def gen_method(rng, D, name, max_lts=4):
         m["ret"], m["wrap"] = [("opaque", False, m["self"][2], "Op", [], False)], "plain"
         m["elided_ret"] = True
     m["ret"] = [t for t in m["ret"]]
+    # spell occurrences of the impl's own type as `Self` (a distinct AST node that the lowering has to treat like the written-out type)
+    m["self_spell"] = rng.random() < 0.35
     flat_decl(m)
     if rng.random() < 0.88:
         fix_method(D, m)
@@ -346,6 +356,27 @@ def fixed_methods(D):
         m["self"] = None
         flat_decl(m)
         out.append(m)
+    # the impl's own type spelled `Self` behind a reference with a lifetime of the method: the bound `'h: 'a` that `&'a H1<'h>` implies
+    # must be restated like for the written-out type (sf0: not restated -> rejected; sf1: restated -> edges from `other` and from `x`)
+    for name, restated, owner in (("sf0", False, "H1"), ("sf1", True, "H1"), ("sf2", False, "S1"), ("sf3", True, "S1")):
+        k = D.d[owner]["n"]; a = k
+        selfp = ("opaque", False, k + 1, owner, list(range(k)), False) if D.d[owner]["kind"] == "opaque" else None
+        if D.d[owner]["kind"] == "opaque":
+            ps = [("opaque", False, a, owner, list(range(k)), False), ("opaque", False, 0, "Op", [], False)]
+        else:   # structs cannot sit behind references: Self by value next to a reference with the struct's lifetime
+            ps = [("struct", False, owner, list(range(k))), ("opaque", False, a, "Op", [], False), ("opaque", False, 0, "Op", [], False)]
+        m = dict(name=name, owner=owner, k_impl=k, n=k + 1, wrap="plain",
+                 places={"impl_param": {}, "impl_where": [], "meth_param": {}, "meth_where": ([(0, [a])] if restated else [])},
+                 self=selfp, pnames=(["this"] if selfp else []) + [f"p{i}" for i in range(len(ps))], params=([selfp] if selfp else []) + ps,
+                 ret=[("opaque", False, a, "Op", [], False)], self_spell=True)
+        flat_decl(m)
+        out.append(m)
+    # a constructor whose result borrows from its second and third argument (nanobind: the object under construction is the nurse)
+    m = dict(name="build", owner="H1", k_impl=1, n=1, wrap="plain", places={"impl_param": {}, "impl_where": [], "meth_param": {}, "meth_where": []},
+             self=None, pnames=["p0", "p1", "p2"], params=[("prim",), ("opaque", False, 0, "Op", [], False), ("opaque", False, 0, "Op", [], False)],
+             ret=[("opaque", False, None, "H1", [0], False)], attr="constructor")
+    flat_decl(m)
+    out.append(m)
     return out
 
 
@@ -378,14 +409,15 @@ def r_generic(tid, args, names, n):
     return tid + (f"<{', '.join(r_lt(a, names, n) for a in args)}>" if args else "")
 
 
-def r_ty(t, names, n, field=False, elide=None):
+def r_ty(t, names, n, field=False, elide=None, selfty=None):
+    """selfty = (owner, k): spell the impl's own type `Owner<'impl params..>` as `Self` (ast TypeName::SelfType)"""
     k = t[0]
     if k == "prim": return "u8"
     if k == "struct":
-        s = r_generic(t[2], t[3], names, n)
+        s = "Self" if (selfty and t[2] == selfty[0] and list(t[3]) == list(range(selfty[1]))) else r_generic(t[2], t[3], names, n)
         return (f"DiplomatOption<{s}>" if field else f"Option<{s}>") if t[1] else s
     if k == "opaque":
-        inner = r_generic(t[3], t[4], names, n)
+        inner = "Self" if (selfty and t[3] == selfty[0] and list(t[4]) == list(range(selfty[1]))) else r_generic(t[3], t[4], names, n)
         if t[2] is None: s = f"Box<{inner}>"
         else:
             lt = r_lt(t[2], names, n)
@@ -426,13 +458,17 @@ def r_bounds(l, ss, names):
     return f"'{names[l]}: " + " + ".join(f"'{names[s]}" for s in ss)
 
 
+def self_spelling(m):
+    return (m["owner"], m["k_impl"]) if m.get("self_spell") else None
+
+
 def r_ret(m, names):
-    ts = [r_ty(t, names, m["n"], elide=m.get("elided_ret")) for t in m["ret"]]
+    ts = [r_ty(t, names, m["n"], elide=m.get("elided_ret"), selfty=self_spelling(m)) for t in m["ret"]]
     return {"plain": ts[0], "option": f"Option<{ts[0]}>", "result_unit": f"Result<{ts[0]}, ()>",
             "result2": f"Result<{ts[0]}, {ts[-1]}>"}[m["wrap"]]
 
 
-def r_method(m, rng_elide=False):
+def r_method(m, rng_elide=False, with_attr=False):
     names = method_names(m); p = m["places"]; k = m["k_impl"]; n = m["n"]
     gens = [f"'{names[l]}" + (": " + " + ".join(f"'{names[s]}" for s in p["meth_param"][l]) if l in p["meth_param"] else "") for l in range(k, n)]
     gen = f"<{', '.join(gens)}>" if gens else ""
@@ -444,10 +480,11 @@ def r_method(m, rng_elide=False):
             lt = r_lt(s[2], names, n)
             args.append("&" + ("" if lt == "'_" else lt + " ") + ("mut " if s[5] else "") + "self")
     for pn, t in zip(m["pnames"][1 if m["self"] else 0:], m["params"][1 if m["self"] else 0:]):
-        args.append(f"{pn}: {r_ty(t, names, n, elide=(int(pn[1:]) % 2 == 0))}")
+        args.append(f"{pn}: {r_ty(t, names, n, elide=(int(pn[1:]) % 2 == 0), selfty=self_spelling(m))}")
     where = (" where " + ", ".join(r_bounds(l, ss, names) for l, ss in p["meth_where"])) if p["meth_where"] else ""
     rt = r_ret(m, names)
-    return f"        pub fn {m['name']}{gen}({', '.join(args)}) -> {rt}{where} {{ todo!() }}"
+    attr = f"        #[diplomat::attr(auto, {m['attr']})]\n" if (with_attr and m.get("attr")) else ""
+    return attr + f"        pub fn {m['name']}{gen}({', '.join(args)}) -> {rt}{where} {{ todo!() }}"
 
 
 def r_impl_header(m):
@@ -486,12 +523,12 @@ def c_bool(b):
     return "true" if b else "false"
 
 
-def c_ty(t):
+def c_ty(t, selfty=None):
     k = t[0]
     if k == "prim": return "TPrim"
     if k == "opaque":
         b = "None" if t[2] is None else f"(Some {c_lt(t[2])})"
-        return f"(TOpaque {c_bool(t[1])} {b} {TID[t[3]]} {c_list([c_lt(a) for a in t[4]])})"
+        return f"(TOpaque {c_bool(is_self_spelled(t, selfty))} {c_bool(t[1])} {b} {TID[t[3]]} {c_list([c_lt(a) for a in t[4]])})"
     if k == "slice":
         b = "None" if t[2] is None else f"(Some {c_lt(t[2])})"
         return f"(TSlice {c_bool(t[1])} {b})"
@@ -507,7 +544,9 @@ def c_defs(D):
 
 
 def c_sig(m):
-    return f"(mkSig {m['n']} {c_decl(m['decl'])} {c_list([c_ty(t) for t in m['params']])} {c_list([c_ty(t) for t in m['ret']])})"
+    sp = self_spelling(m)
+    ps = [c_ty(t, None if (m.get("self") and i == 0) else sp) for i, t in enumerate(m["params"])]      # the receiver is recorded by name
+    return f"(mkSig {m['n']} {c_decl(m['decl'])} {c_list(ps)} {c_list([c_ty(t, sp) for t in m['ret']])})"
 
 
 def c_edge(e):
